@@ -330,7 +330,12 @@ class Daemon(object):
         msg_seq = 0
         current_context.response_annotations = {}   # don't send left-overs of an earlier call with the handshake reply
         try:
-            msg = protocol.recv_stub(conn, [protocol.MSG_CONNECT])
+            try:
+                msg = protocol.recv_stub(conn, [protocol.MSG_CONNECT])
+            except errors.ConnectionClosedError:
+                # only here does this error mean that the peer is gone (a validator may raise it for reasons of its own)
+                log.debug("handshake failed, connection closed early")
+                return False
             msg_seq = msg.seq
             if denied_reason:
                 raise Exception(denied_reason)
@@ -350,9 +355,6 @@ class Daemon(object):
             }
             data = serializer.dumps(handshake_response)
             msgtype = protocol.MSG_CONNECTOK
-        except errors.ConnectionClosedError:
-            log.debug("handshake failed, connection closed early")
-            return False
         except Exception as x:
             log.debug("handshake failed, reason:", exc_info=True)
             if serializer_id not in serializers.serializers_by_id:
